@@ -12,3 +12,4 @@ from . import primitives  # noqa: F401
 from . import pragmas  # noqa: F401
 from . import api  # noqa: F401
 from . import nesting  # noqa: F401
+from . import fixes  # noqa: F401
